@@ -4,7 +4,6 @@ import (
 	"flag"
 	"fmt"
 	"os"
-	"path/filepath"
 	"runtime"
 	"sort"
 	"strings"
@@ -13,6 +12,8 @@ import (
 
 	"golang.org/x/tools/go/ssa"
 )
+
+var workDir string
 
 func newEngine(repo, verif string) (*Engine, error) {
 	e := &Engine{repo: repo, verifDir: verif, wsCache: map[*ssa.Function]map[string]bool{}}
@@ -38,7 +39,7 @@ func (e *Engine) scan() {
 }
 
 func (e *Engine) background() string {
-	return e.sorts.prelude() + e.specPrelude()
+	return e.sorts.prelude() + e.specPrelude() + e.anyAxioms()
 }
 
 type RunResult struct {
@@ -66,7 +67,26 @@ func (e *Engine) verifyFuncs(fns []*ssa.Function, opts SolveOpts, filter func(*O
 		if it.res.Err != "" || it.tr == nil {
 			continue
 		}
-		vs := it.tr.il.genVC(bg)
+		vs := it.tr.il.genVC(bg, func(decl string) string {
+			// (declare-const |comp!old| sort)
+			if i := strings.Index(decl, "!old|"); i > 0 {
+				j := strings.Index(decl, "|")
+				comp := decl[j+1 : i]
+				return e.sorts.oldHeapAxiom(comp, "|"+comp+"!old|")
+			}
+			return ""
+		})
+		{
+			var keep []*Obligation
+			for _, ob := range vs.Obs {
+				if reason, ok := e.isTrusted(ob.Name); ok {
+					it.res.Trusted = append(it.res.Trusted, ob.Name+" :: "+reason)
+					continue
+				}
+				keep = append(keep, ob)
+			}
+			vs.Obs = keep
+		}
 		if filter != nil {
 			var keep []*Obligation
 			for _, ob := range vs.Obs {
@@ -77,7 +97,6 @@ func (e *Engine) verifyFuncs(fns []*ssa.Function, opts SolveOpts, filter func(*O
 			vs.Obs = keep
 		}
 		it.res.Obs = vs.Obs
-		it.res.Prelude = vs.Prelude
 		it := it
 		wg.Add(1)
 		go func() {
@@ -102,10 +121,23 @@ func main() {
 	fnFlag := fs.String("fn", "", "comma separated function keys (default: all)")
 	timeout := fs.Int("timeout", 10000, "per-obligation solver timeout (ms)")
 	cross := fs.Bool("cross", true, "retry failures on the other solvers")
+	keepOb := fs.String("keepob", "", "with -keep: also write the sliced query of obligations whose name contains this text")
+	batch := fs.Int("batch", 12, "number of obligations proved per solver query (failures are retried one by one)")
 	verbose := fs.Bool("v", false, "verbose")
 	tier := fs.String("tier", "quick", "quick|thorough")
+	keep := fs.String("keep", "", "keep solver files in this directory (default: temporary directory removed at exit)")
 	fs.Parse(os.Args[2:])
 	solveSem = make(chan struct{}, runtime.NumCPU())
+	workDir = *keep
+	if workDir == "" {
+		d, err := os.MkdirTemp("", "govc-work-")
+		if err != nil {
+			fmt.Fprintln(os.Stderr, "govc:", err)
+			os.Exit(2)
+		}
+		workDir = d
+		defer os.RemoveAll(d)
+	}
 	e, err := newEngine(*repo, *verif)
 	if err != nil {
 		fmt.Fprintln(os.Stderr, "govc: load:", err)
@@ -152,7 +184,7 @@ func main() {
 		}
 	case "verify":
 		e.scan()
-		opts := SolveOpts{WorkDir: filepath.Join(*verif, ".work"), TimeoutMs: *timeout, Cross: *cross}
+		opts := SolveOpts{WorkDir: workDir, Keep: *keep != "", TimeoutMs: *timeout, Cross: *cross, Batch: *batch, KeepOb: *keepOb}
 		rr := e.verifyFuncs(fns, opts, nil)
 		nOb, nOK := 0, 0
 		for _, fr := range rr.Funcs {
@@ -179,7 +211,7 @@ func main() {
 					want = "sat"
 				}
 				if ob.Status != want || *verbose {
-					fmt.Printf("   %-8s %-70s %s  %s | %s\n", ob.Status, ob.Name, ob.Pos, ob.Solver, ob.Detail)
+					fmt.Printf("   %-8s %-70s %s  %s %.2fs | %s\n", ob.Status, ob.Name, ob.Pos, ob.Solver, ob.Secs, ob.Detail)
 				}
 			}
 		}
@@ -194,7 +226,11 @@ func main() {
 		fmt.Printf("external callees without contract (default: writes only through pointer args): %s\n", strings.Join(dk, ", "))
 		fmt.Printf("TOTAL obligations=%d discharged=%d wall=%.1fs\n", nOb, nOK, rr.Wall)
 	case "check":
-		os.Exit(runCheck(e, fs.Args(), *tier, *timeout, *verif))
+		code := runCheck(e, fs.Args(), *tier, *timeout, *verif)
+		if *keep == "" {
+			os.RemoveAll(workDir)
+		}
+		os.Exit(code)
 	default:
 		fmt.Fprintln(os.Stderr, "unknown command", cmd)
 		os.Exit(2)
